@@ -156,5 +156,15 @@ func registerTime(e *Engine) {
 		e.addPC(st, c.And(c.Sge(v, e.i64(0)), c.Slt(v, n)))
 		return v, true
 	}
+	// Float64 in [0,1): the two extreme outcomes (every comparison r < p with p in (0,1] can go
+	// either way unless p == 1), explored by forking.
+	f64 := func(e *Engine, st *State, th *Thread, args []Value, call *ssa.CallCommon) (Value, bool) {
+		if e.chooseFree(st, 2, "rand.Float64: low or high") == 0 {
+			return Float{0}, true
+		}
+		return Float{0.9999999999}, true
+	}
+	I["(*math/rand.Rand).Float64"] = f64
+	I["math/rand.Float64"] = f64
 	I["math/rand.Seed"] = func(e *Engine, st *State, th *Thread, args []Value, call *ssa.CallCommon) (Value, bool) { return nil, true }
 }
